@@ -28,6 +28,7 @@ EXPLANATION = (
     "set_sequences_in_folder (inside mh_sequences_lock), then commit_to_db, then _dispatch_or_pend_notifications; (R4.5) "
     "do_store echoes the FETCH lines exactly when cmd.silent is false and passes dont_notify=self. "
     "Decides these clauses, not equality with a reference flag model over operation sequences."
+    ' (R4.7) _p_flag, the one producer of client flags, folds every case variant of a system flag to its canonical spelling before anything downstream (all case-sensitive) sees it.'
 )
 RULE_TEXT = (
     "instances: each table relation; each spelling of the non-settable flag; each (function, flag case) of the abstract "
